@@ -73,13 +73,13 @@ func expectedPuts(m *Model, spec TxnSpec, res []StepResult, pre map[uint32]MRow,
 
 func TestC19(t *testing.T) {
 	rapid.Check(t, func(t *rapid.T) {
-		sch := genSchema(t, SchemaCfg{Key: 1, Merges: true, MinCols: 1, MaxCols: 3, NoLenMerge: KFActive("f15-difflen-merge-reorder"),
+		sch := genSchema(t, SchemaCfg{Key: 1, Merges: true, MinCols: 1, MaxCols: 3,
 			Kinds: []Kind{KInt, KInt16, KInt32, KInt64, KUint, KUint16, KUint32, KUint64, KFloat32, KFloat64, KString, KString}})
 		mc := NewMachine("C19", sch, column.Options{})
 		defer mc.Close()
 		defer mc.Guard(t)
 		cfg := TxnCfg{Prop: "C19", MaxSteps: 10, Rollback: true, Deletes: true, Inserts: true, Merges: true, OwnUpdates: true, Direct: true,
-			NoStoreOnDel: KFActive("f11-store-and-delete-same-txn"), NoDoubleDelete: KFActive("f24-double-delete-double-trigger")}
+			NoStoreOnDel: KFActive("f11-store-and-delete-same-txn"), NoOpAfterLenMerge: KFActive("f15-difflen-merge-reorder"), NoDoubleDelete: KFActive("f24-double-delete-double-trigger")}
 		var trigs []*trigState
 		seq := 0
 		interesting := false
